@@ -173,10 +173,6 @@ func split(ctx context.Context, node *mastNode, key interface{}, mast *Mast) (le
 			return nil, nil, err
 		}
 	}
-	// TODO: common case maybe not dirty
-	node.dirty = true
-	node.expected = nil
-	node.source = nil
 	return leftLink, rightLink, nil
 }
 
@@ -246,9 +242,8 @@ func (node *mastNode) follow(ctx context.Context, i int, createOk bool, mast *Ma
 	} else if !createOk {
 		return node, nil
 	} else {
-		child := emptyNodePointer(cap(node.Key))
-		node.Link[i] = child
-		return child, nil
+		// the new child is linked in by savePathForRoot, into a copy if this node is shared
+		return emptyNodePointer(cap(node.Key)), nil
 	}
 }
 
